@@ -67,6 +67,8 @@ def ext_top_except(*classes) -> AV:
 UNK = AV()
 EXT_TOP = AV("exc", "<external-exception>")  # some Exception subclass not defined in urllib3
 BASE_TOP = AV("exc", "<interrupt>")  # KeyboardInterrupt / GeneratorExit-like
+STR_TOTAL_METHODS = {"find", "rfind", "startswith", "endswith", "lower", "upper", "casefold", "title", "strip", "lstrip", "rstrip", "replace", "count",
+                     "partition", "rpartition", "isdigit", "isalpha", "isalnum", "isspace", "isascii", "isidentifier", "splitlines"}
 GEN_EXIT = AV("exc", "builtins.GeneratorExit", truth=True, none=False)  # thrown in at a yield when the consumer abandons the generator
 RESEND = AV("exc", "<resend>")  # terminal pseudo-exit for self-recursive resend calls
 
@@ -774,6 +776,74 @@ class Interp:
             cur = nxt
         return cur, raises
 
+    def _signature(self, node, recv, q):
+        """positional-or-keyword parameter names of a repo callee (None when the callee is not a repo function)"""
+        m = self.m
+        f = node.func
+        fi = None
+        if isinstance(f, ast.Attribute):
+            if recv is not None and recv.kind == "self" and self.self_cls:
+                fi = m.find_method(self.self_cls, f.attr)
+            elif isinstance(f.value, ast.Name) and f.value.id == "cls" and self.self_cls:
+                fi = m.find_method(self.self_cls, f.attr)
+            elif isinstance(f.value, ast.Call) and ast.unparse(f.value.func) == "super" and self.self_cls:
+                for c in m.mro(self.self_cls)[1:]:
+                    ci = m.classes.get(c)
+                    if ci is not None and f.attr in ci.methods:
+                        fi = ci.methods[f.attr]
+                        break
+            elif q and q in m.funcs:
+                fi = m.funcs[q]
+        elif isinstance(f, ast.Name) and q:
+            if q in m.funcs:
+                fi = m.funcs[q]
+            elif q in m.classes:
+                fi = m.find_method(q, "__init__")
+                if fi is None or not fi.qual.startswith("urllib3."):
+                    ci = m.classes[q]
+                    names = [n.target.id for n in ci.node.body if isinstance(n, ast.AnnAssign) and isinstance(n.target, ast.Name)]
+                    return names or None
+        if fi is None or not fi.qual.startswith("urllib3."):
+            return None
+        a = fi.node.args
+        names = [x.arg for x in a.posonlyargs + a.args]
+        if fi.cls is not None and names and names[0] in ("self", "cls") and not any("staticmethod" in d for d in fi.decorators):
+            names = names[1:]
+        return names
+
+    def canon_args(self, node, recv, pos, kw):
+        """f(a, y=b) and f(a, b) are the same call when y is f's second parameter: keywords that continue the positional
+        prefix of a repo callee's signature are moved into it."""
+        if not kw or "*" in kw:
+            return pos, kw
+        try:
+            names = self._signature(node, recv, self.resolve_callee(node, recv))
+        except Exception:
+            names = None
+        if not names:
+            return pos, kw
+        pos, kw = list(pos), dict(kw)
+        i = len(pos)
+        while i < len(names) and names[i] in kw:
+            pos.append(kw.pop(names[i]))
+            i += 1
+        return pos, kw
+
+    def bind_args(self, node, recv, pos, kw):
+        """parameter name -> value for a call of a repo callee (positional and keyword forms alike); {} when the callee's
+        signature is not known.  Rules that look arguments up by name use this instead of `pos[i]` / `kw[name]`."""
+        try:
+            names = self._signature(node, recv, self.resolve_callee(node, recv))
+        except Exception:
+            names = None
+        if not names:
+            return {}
+        out = {n: v for n, v in zip(names, pos)}
+        for k, v in kw.items():
+            if k not in ("*", "**"):
+                out.setdefault(k, v)
+        return out
+
     def eval_call(self, st: State, node: ast.Call):
         f = node.func
         if (isinstance(f, ast.Name) and f.id == "getattr" and (len(node.args) == 2 or (len(node.args) == 3 and self.rule.getattr_default_transparent)) and not node.keywords and isinstance(node.args[1], ast.Constant)
@@ -868,7 +938,12 @@ class Interp:
         if isinstance(f, ast.Name) and f.id in NO_RAISE_BUILTINS:
             if f.id == "bool" and pos:
                 return [Out("normal", st, AV("unk", truth=pos[0].truth, none=False, sym=pos[0].sym))]
+            if f.id in ("str", "repr"):
+                return [Out("normal", st, AV("unk", none=False, typ="builtins.str"))]
             return [Out("normal", st, UNK)]
+        if isinstance(f, ast.Attribute) and recv is not None and (recv.typ == "builtins.str" or (recv.kind == "const" and isinstance(recv.val, str))) and f.attr in STR_TOTAL_METHODS:
+            # total methods of a string (they cannot raise for string arguments): find / startswith / lower / ...
+            return [Out("normal", st, AV("unk", none=False, typ="builtins.str" if f.attr in ("lower", "upper", "strip", "lstrip", "rstrip", "casefold", "title", "replace") else None))]
         if isinstance(f, ast.Attribute) and isinstance(f.value, ast.Name) and (f.value.id, f.attr) in NO_RAISE_ATTR_CALLS:
             return [Out("normal", st, UNK)]
         if q in self.m.funcs and q in self.inline and self.depth < self.max_depth:
